@@ -150,6 +150,30 @@ def run(ck, facts, tier):
         cfg = b.cfg
         guard_sites(ck, R, b, cfg.call_blocks(BIND), cfg.bool_edges(trace_is_call("UniverseIndex::can_see"), True), "bind lifetime", "var_ui.can_see(value_ui)")
 
+    R = "C14.OCCURS-BOUND"
+    ck.rule(R, "K3: when the occurs check meets a variable that is already *bound*, it folds the bound value with itself on every path "
+               "(try_fold_with(self, ..)): the universe test and the cycle test apply to what the variable stands for - no shortcut "
+               "(flags, groundness) may return the value unexamined, because a variable-free value can still name a placeholder the "
+               "variable being bound cannot see")
+    for kind in ("ty", "const", "lifetime"):
+        b = need_body(ck, facts, R, OCC + "::try_fold_inference_" + kind)
+        if not b:
+            continue
+        cfg = b.cfg
+        bound = cfg.variant_edges(lambda tr: str(tr.get("adt", "")).endswith("InferenceValue"), ["Bound"])
+        folds = cfg.call_blocks(("TypeFoldable::try_fold_with", "try_fold_with", "TypeSuperFoldable::try_super_fold_with"))
+        ck.floor(R, "try_fold_inference_%s.Bound-edge/fold" % kind, min(len(bound), len(folds)), 1)
+        if bound and folds:
+            esc = []
+            for e in bound:
+                reach = cfg.reachable(e[1], (), False, stop=set(folds))
+                esc += [r for r in cfg.return_blocks() if r in reach]
+            if esc:
+                ck.violation(R, "try_fold_inference_%s:bound-value-folded" % kind, b.where(),
+                             "a path returns the bound value of a variable without folding it through the occurs check")
+            else:
+                ck.ok(R, "try_fold_inference_%s:bound-value-folded" % kind)
+
     R = "C14.UNIVERSE"
     ck.rule(R, "K1: OccursCheck fails on a type/const placeholder the variable cannot see (`universe_index < ui` edge -> Err); the lifetime "
                "callback never fails; InferenceValue::unify_values keeps min(universe) for two unbound values and the bound value otherwise")
